@@ -23,9 +23,11 @@ MUTANTS = [
      "        if sock in self._clients:\n            pass\n        else:\n            self._sock = None"),
     # buffered data of a connection that ends is kept
     ('c12-buffers-kept-on-close', 'C12', S,
-     "        self._poller.discard(sock)\n\n        if sock in self._buffers:\n            del self._buffers[sock]\n\n        if sock in self._clients:",
-     "        self._poller.discard(sock)\n\n        if sock in self._clients:"),
+     "        if sock in self._buffers:\n            del self._buffers[sock]\n\n",
+     "        if False:\n            del self._buffers[sock]\n\n"),
     # the deferred close forgets to leave the close queue
+    # NOTE: becomes an equivalent mutant once proposed_fixes/C12-closeq-entry-survives-error-close.diff is applied (then _close itself
+    # removes the entry); remove it from the list at that point.
     ('c12-closeq-entry-kept', 'C12', S,
      "            if sock in self._closeq:\n                self._closeq.remove(sock)\n                self._close(sock)\n            elif self._poller.isWriting(sock):\n                self._poller.removeWriter(sock)\n\n    def _create_socket(self):\n        sock = socket(self.socket_family, self.socket_type, self.socket_protocol)\n\n        for option in self.socket_options:\n            sock.setsockopt(*option)\n        sock.setblocking(False)\n        if self._bind is not None:\n            sock.bind(self._bind)\n        return sock\n\n\nclass TCPServer",
      "            if sock in self._closeq:\n                self._close(sock)\n            elif self._poller.isWriting(sock):\n                self._poller.removeWriter(sock)\n\n    def _create_socket(self):\n        sock = socket(self.socket_family, self.socket_type, self.socket_protocol)\n\n        for option in self.socket_options:\n            sock.setsockopt(*option)\n        sock.setblocking(False)\n        if self._bind is not None:\n            sock.bind(self._bind)\n        return sock\n\n\nclass TCPServer"),
@@ -57,10 +59,8 @@ MUTANTS = [
     ('c12-connect-twice', 'C12', S,
      "            try:\n                self.fire(connect(sock, *sock.getpeername()))\n            except OSError as exc:",
      "            try:\n                self.fire(connect(sock, *sock.getpeername()))\n                self.fire(connect(sock, *sock.getpeername()))\n            except OSError as exc:"),
-    # a fatal read error ends the connection without telling the poller / the tables (no _close)
-    ('c12-read-error-no-close', 'C12', S,
-     "            self.fire(error(sock, e))\n            self._close(sock)\n\n    def _write(self, sock, data):",
-     "            self.fire(error(sock, e))\n\n    def _write(self, sock, data):"),
+    # NOT listed (equivalent for this property): dropping the _close() after a fatal read error only delays the disconnect by one
+    # iteration - the errored socket stays readable (Select: recv returns b'' -> close) or reports POLLHUP (Poll/EPoll: _disconnect).
     # pollers ------------------------------------------------------------------------------------------------------
     # BasePoller.discard leaves the target entry (all pollers)
     ('c12-poller-discard-keeps-target', 'C12', P,
@@ -87,8 +87,6 @@ MUTANTS = [
     ('c12-client-disconnected-not-fired', 'C12', S,
      "        with contextlib.suppress(OSError):\n            self._sock.close()\n\n        self.fire(disconnected())",
      "        with contextlib.suppress(OSError):\n            self._sock.close()"),
-    # a deferred close (data still buffered) is forgotten when the buffer drains
-    ('c12-client-closeflag-ignored', 'C12', S,
-     "        if not self._buffer:\n            if self._closeflag:\n                self._close()\n            elif self._poller.isWriting(self._sock):",
-     "        if not self._buffer:\n            if self._poller.isWriting(self._sock):"),
+    # NOT listed (equivalent for this property): a Client that forgets its deferred close stays connected until the peer closes and then
+    # still reports exactly one disconnected (the lost close is C11's subject).
 ]
